@@ -43,10 +43,13 @@ def current_class(ip):
     return mod + ":" + q.rsplit(".", 1)[0] if "." in q else None
 
 
+REWRITER_TAGS = {"Rewriter"}
+
+
 def _dyn_getattr(ip, a, kw, node):
     obj, name = a[0], a[1]
     default = a[2] if len(a) > 2 else None
-    if not (isinstance(obj, ZV) and base_tag(obj.tag) == "Rewriter"):
+    if not (isinstance(obj, ZV) and base_tag(obj.tag) in REWRITER_TAGS):
         raise Unsupported("dynamic getattr on %r" % (obj,))
     # name must be "rewrite_" + typname
     t = z3.simplify(as_str(name))
@@ -186,6 +189,39 @@ ax("Union-of-types-not-none", L.FA(_sq, z3.Implies(z3.And(L.len_(_sq) >= 1, L.FA
                                                    TY.Union_(_sq) != L.NONE), [TY.Union_(_sq)]))
 ax("wf-rw-not-none-kinds", L.FA(_t, z3.Implies(z3.Or(*[TY.kind(_t) == TY.K[k_] for k_ in TY.KINDS if k_ != "Other"]), _t != L.NONE), [TY.kind(_t)]))
 ax("wf-rw-not-none", z3.Not(wf_rw(L.NONE)))
+
+# ---- wf_ann: annotation types as stub generation hands them on - wf_rw with forward references (to generated TypedDict classes) allowed at any depth.
+# Same eliminations as wf_rw except that a node may be a ForwardRef leaf; every wf_rw type is one; closed under the same constructors.
+wf_ann = declare_pred("wf_ann", L.V, L.B)
+is_fwd = lambda x: TY.kind(x) == TY.K["ForwardRef"]
+ax("wf-ann-from-rw", L.FA(_t, z3.Implies(wf_rw(_t), wf_ann(_t)), [wf_rw(_t)]))
+ax("wf-ann-fwd", L.FA(_t, z3.Implies(is_fwd(_t), wf_ann(_t)), [wf_ann(_t)]))
+ax("fwd-leaf", L.FA(_t, z3.Implies(is_fwd(_t), z3.And(z3.Not(TY.has_args(_t)), _t != TY.ELLIPSIS, _t != L.NONE, _t != TY.UNION_BARE, _t != TY.ANY, _t != TY.NONETYPE)), [TY.kind(_t)]))
+ax("wf-ann-shallow", L.FA(_t, z3.Implies(wf_ann(_t), z3.And(z3.Or(TY.wf_ty(_t), _t == TY.ELLIPSIS, is_fwd(_t)), TY.kind(_t) != TY.K["NamedTD"], TY.kind(_t) != TY.K["TypeVar"])), [wf_ann(_t)]))
+ax("wf-ann-args", L.FA([_t, _i], z3.Implies(z3.And(wf_ann(_t), 0 <= _i, _i < L.len_(TY.args(_t)), TY.has_args(_t)), wf_ann(L.nth(TY.args(_t), _i))),
+                       [(wf_ann(_t), L.nth(TY.args(_t), _i))]))
+ax("wf-ann-td", L.FA([_t, _k], z3.Implies(z3.And(wf_ann(_t), TY.kind(_t) == TY.K["TD"]),
+                                           z3.And(z3.Implies(L.has(TY.td_req(_t), _k), z3.And(wf_ann(L.get(TY.td_req(_t), _k)), L.get(TY.td_req(_t), _k) != TY.ELLIPSIS)),
+                                                  z3.Implies(L.has(TY.td_opt(_t), _k), z3.And(wf_ann(L.get(TY.td_opt(_t), _k)), L.get(TY.td_opt(_t), _k) != TY.ELLIPSIS)))),
+                     [(wf_ann(_t), L.get(TY.td_req(_t), _k)), (wf_ann(_t), L.get(TY.td_opt(_t), _k))]))
+ax("wf-ann-no-legacy-empty-tuple", L.FA(_t, z3.Implies(wf_ann(_t), TY.args(_t) != L.mk_tuple([L.EMPTY_SEQ])), [wf_ann(_t)]))
+ax("wf-ann-ellipsis-only-in-tuplevar", L.FA([_t, _i], z3.Implies(z3.And(wf_ann(_t), TY.has_args(_t), 0 <= _i, _i < L.len_(TY.args(_t)), L.nth(TY.args(_t), _i) == TY.ELLIPSIS),
+                                                                 z3.And(TY.kind(_t) == TY.K["TupleVar"], _i == 1)), [(wf_ann(_t), L.nth(TY.args(_t), _i))]))
+ax("wf-ann-args-not-none", L.FA([_t, _i], z3.Implies(z3.And(wf_ann(_t), 0 <= _i, _i < L.len_(TY.args(_t))), L.nth(TY.args(_t), _i) != L.NONE), [(wf_ann(_t), L.nth(TY.args(_t), _i))]))
+ax("wf-ann-not-none", z3.Not(wf_ann(L.NONE)))
+ax("wf-ann-td-dictlike", L.FA(_t, z3.Implies(z3.And(wf_ann(_t), TY.kind(_t) == TY.K["TD"]), z3.And(L.is_dictlike(TY.td_req(_t)), L.is_dictlike(TY.td_opt(_t)))), [wf_ann(_t), TY.td_req(_t)]))
+_tya = lambda x: z3.And(wf_ann(x), x != TY.ELLIPSIS)
+ax("wfa-intro-List", L.FA(_a, z3.Implies(_tya(_a), wf_ann(TY.List_(_a))), [TY.List_(_a)]))
+ax("wfa-intro-Set", L.FA(_a, z3.Implies(_tya(_a), wf_ann(TY.Set_(_a))), [TY.Set_(_a)]))
+ax("wfa-intro-Iterator", L.FA(_a, z3.Implies(_tya(_a), wf_ann(TY.Iterator_(_a))), [TY.Iterator_(_a)]))
+ax("wfa-intro-Type", L.FA(_a, z3.Implies(_tya(_a), wf_ann(TY.Type_(_a))), [TY.Type_(_a)]))
+ax("wfa-intro-TupleVar", L.FA(_a, z3.Implies(_tya(_a), wf_ann(TY.TupleVar_(_a))), [TY.TupleVar_(_a)]))
+ax("wfa-intro-Dict", L.FA([_a, _b], z3.Implies(z3.And(_tya(_a), _tya(_b)), wf_ann(TY.Dict_(_a, _b))), [TY.Dict_(_a, _b)]))
+ax("wfa-intro-DefaultDict", L.FA([_a, _b], z3.Implies(z3.And(_tya(_a), _tya(_b)), wf_ann(TY.DefaultDict_(_a, _b))), [TY.DefaultDict_(_a, _b)]))
+ax("wfa-intro-Generator", L.FA([_a, _b, _c], z3.Implies(z3.And(_tya(_a), _tya(_b), _tya(_c)), wf_ann(TY.Generator_(_a, _b, _c))), [TY.Generator_(_a, _b, _c)]))
+_alltya = lambda sq_: L.FA(_i, z3.Implies(z3.And(0 <= _i, _i < L.len_(sq_)), _tya(L.nth(sq_, _i))), [L.nth(sq_, _i)])
+ax("wfa-intro-Tuple", L.FA(_sq, z3.Implies(_alltya(_sq), wf_ann(TY.Tuple_(_sq))), [TY.Tuple_(_sq)]))
+ax("wfa-intro-Union", L.FA(_sq, z3.Implies(z3.And(L.len_(_sq) >= 1, _alltya(_sq)), _tya(TY.Union_(_sq))), [TY.Union_(_sq)]))
 
 # ---- C06 deep invariant: every anonymous TypedDict node inside t has between 1 and k keys in total (k <= 0: there is none)
 td_okd = declare_pred("td_okd", L.V, L.I, L.B)
